@@ -7,10 +7,13 @@
 package sim
 
 import (
+	"bufio"
+	"bytes"
 	"crypto/sha256"
 	"encoding/hex"
 	"fmt"
 	"hash/fnv"
+	"os"
 	"runtime"
 	"sort"
 	"strings"
@@ -95,7 +98,8 @@ type Result struct {
 	ParseErr     string
 	TypeErr      string
 	Accepted     bool
-	Prints       []string
+	Prints       []string // labels actually written to standard output, in order
+	RulePrints   []string // labels of the PRINT rule events seen by the hook
 	PrintTasks   []string
 	Quiescent    []Blocked // table at the first instant no transition is enabled (before any cancellation)
 	QuiescentAt  int
@@ -118,6 +122,7 @@ type Result struct {
 	ProcessCount uint64
 	DeadCount    uint64
 	Diverged     string // replay could not follow the recorded schedule
+	MonitorStall string // a process goroutine is stuck in a monitor notification (monitor wedged)
 }
 
 type sched struct {
@@ -595,12 +600,18 @@ func (s *sched) run() {
 				if s.cancelled() {
 					t.state = stLost
 					r.Lost++
+				} else if s.cfg.Monitor && blockedInMonitor() {
+					// not a harness problem: the process is blocked handing an update to the monitor,
+					// which no longer takes any (the observer changed the outcome: C03's business)
+					t.state = stLost
+					r.Lost++
+					r.MonitorStall = fmt.Sprintf("%s is blocked in a monitor notification after %q at step %d: the monitor goroutine no longer receives", t.id, c.desc, r.Steps)
 				} else {
 					r.ModelErrors = append(r.ModelErrors, fmt.Sprintf("MODEL MISMATCH: %s neither parked nor finished after %q at step %d", t.id, c.desc, r.Steps))
 				}
 			}
 		}
-		bad := len(r.ModelErrors) > 0
+		bad := len(r.ModelErrors) > 0 || r.MonitorStall != ""
 		s.mu.Unlock()
 		if bad {
 			break
@@ -632,6 +643,40 @@ func (s *sched) run() {
 		t.wake <- !s.cfg.KeepLeftovers
 	}
 	synctest.Wait()
+}
+
+// The interpreter writes `> label` lines with fmt.Printf, i.e. to whatever os.Stdout is at
+// that moment. For the duration of a run os.Stdout is a scratch file, so the labels the
+// oracles see are the ones actually printed, not merely the PRINT rule events.
+var outFile *os.File
+
+func captureStdout() (restore func() []string) {
+	if outFile == nil {
+		f, err := os.CreateTemp("", "verif-stdout-*")
+		if err != nil {
+			panic(err)
+		}
+		os.Remove(f.Name())
+		outFile = f
+	}
+	outFile.Truncate(0)
+	outFile.Seek(0, 0)
+	old := os.Stdout
+	os.Stdout = outFile
+	return func() []string {
+		os.Stdout = old
+		outFile.Seek(0, 0)
+		var labels []string
+		sc := bufio.NewScanner(outFile)
+		sc.Buffer(make([]byte, 1<<16), 1<<24)
+		for sc.Scan() {
+			l := sc.Bytes()
+			if bytes.HasPrefix(l, []byte("> ")) {
+				labels = append(labels, string(l[2:]))
+			}
+		}
+		return labels
+	}
 }
 
 // Run parses, typechecks and executes src under the simulator.
@@ -672,19 +717,24 @@ func Run(t *testing.T, src string, cfg Config) *Result {
 			re.Typechecked = !cfg.NoTypecheck
 			re.ExecutionVersion = cfg.Mode
 			re.Color = false
-			re.Quiet = true
+			re.Quiet = false // log levels are empty: the only output is the `> label` lines
 			re.UseMonitor = cfg.Monitor
 			re.Delay = time.Duration(cfg.DelayMs) * time.Millisecond
 			s.re = re
 			process.Sim = s
 			defer func() { process.Sim = nil }()
+			restore := captureStdout()
+			defer func() {
+				res.RulePrints = res.Prints
+				res.Prints = restore()
+			}()
 			done := make(chan struct{})
 			go func() { defer close(done); s.run() }()
 			process.InitializeProcesses(procs, nil, nil, re)
 			res.Returned = true
 			<-done
 			synctest.Wait()
-			if cfg.Monitor {
+			if cfg.Monitor && res.MonitorStall == "" {
 				re.StopMonitor()
 				res.Probes["monitor_attached"]++
 			}
@@ -700,6 +750,19 @@ func Run(t *testing.T, src string, cfg Config) *Result {
 		})
 	}()
 	return res
+}
+
+// blockedInMonitor: is some goroutine blocked inside a monitor notification (a send on the
+// monitor's unbuffered channel)?
+func blockedInMonitor() bool {
+	buf := make([]byte, 1<<20)
+	n := runtime.Stack(buf, true)
+	for _, g := range strings.Split(string(buf[:n]), "\n\n") {
+		if strings.Contains(g, "chan send") && strings.Contains(g, "grits/process.(*Monitor).Monitor") {
+			return true
+		}
+	}
+	return false
 }
 
 // canonicalLog makes the event log independent of the Go scheduler: within one
